@@ -318,6 +318,19 @@ type property struct {
 type objectBase struct {
 	properties []*property
 	lock       sync.Mutex
+	// The bytes consumed by the last unmarshal, so that the decoder of the parent
+	// does not compute Size() of the whole subtree again at every level of nesting.
+	decoded int
+}
+
+// The number of bytes a just decoded value took, which equals to Size().
+func decodedSize(a Amf0) int {
+	if v, ok := a.(interface {
+		decodedSize() int
+	}); ok {
+		return v.decodedSize()
+	}
+	return a.Size()
 }
 
 func (v *objectBase) Size() int {
@@ -369,6 +382,11 @@ func (v *objectBase) Set(key string, value Amf0) *objectBase {
 }
 
 func (v *objectBase) unmarshal(p []byte, eof bool, maxElems int) (err error) {
+	total := len(p)
+	defer func() {
+		v.decoded = total - len(p)
+	}()
+
 	// if no eof, elems specified by maxElems.
 	if !eof && maxElems < 0 {
 		return oe.Errorf("maxElems=%v without eof", maxElems)
@@ -403,7 +421,7 @@ func (v *objectBase) unmarshal(p []byte, eof bool, maxElems int) (err error) {
 		v.lock.Lock()
 		v.properties = append(v.properties, &property{key: u, value: a})
 		v.lock.Unlock()
-		p = p[a.Size():]
+		p = p[decodedSize(a):]
 		return nil
 	}
 
@@ -485,6 +503,10 @@ func (v *Object) Size() int {
 	return int(1) + v.eof.Size() + v.objectBase.Size()
 }
 
+func (v *Object) decodedSize() int {
+	return int(1) + v.objectBase.decoded
+}
+
 func (v *Object) UnmarshalBinary(data []byte) (err error) {
 	var p []byte
 	if p = data; len(p) < 1 {
@@ -543,6 +565,10 @@ func (v *EcmaArray) amf0Marker() marker {
 
 func (v *EcmaArray) Size() int {
 	return int(1) + 4 + v.eof.Size() + v.objectBase.Size()
+}
+
+func (v *EcmaArray) decodedSize() int {
+	return int(1) + 4 + v.objectBase.decoded
 }
 
 func (v *EcmaArray) UnmarshalBinary(data []byte) (err error) {
@@ -606,6 +632,10 @@ func (v *StrictArray) amf0Marker() marker {
 
 func (v *StrictArray) Size() int {
 	return int(1) + 4 + v.objectBase.Size()
+}
+
+func (v *StrictArray) decodedSize() int {
+	return int(1) + 4 + v.objectBase.decoded
 }
 
 func (v *StrictArray) UnmarshalBinary(data []byte) (err error) {
